@@ -82,6 +82,11 @@ def new_sim(st, interrupts=True, max_steps=20000, backend="sim"):
 
 
 def finish_outcome(out, st, sim, ctx):
+    if out.log is not None and not isinstance(out.log, str):
+        # freeze the event log now: objects torn down after the run (abandoned generators, deadlocked tasks,
+        # asyncio's shutdown_asyncgens over a WeakSet) append further events in an order that is the
+        # interpreter's business, not the run's
+        out.log = repr(out.log)
     if getattr(sim, "backend", None) == "asyncio":
         sim.close()
         out.probes["backend_asyncio"] = 1
